@@ -286,6 +286,38 @@ VCLAUSE(list_templates, 120, 12000, 250000, "lists differ in length or in one el
 			VCHECK((int) sub.size() == hi - j1 + 1, "Sub_List(" << j1 << "," << j2 << ") of a list of " << m << " has " << sub.size() << " elements");
 		}
 	}
+	// ragged nested lists (rows of different lengths, empty rows): Flatten_List concatenates them, Lists_Equal tells shapes apart
+	{
+		int rr = (int) s.range(0, 5);
+		std::vector<std::vector<int>> rag((size_t) rr), rag2;
+		std::vector<int> flat_expect;
+		for(auto& row : rag)
+		{
+			int len = (int) s.range(0, 4);
+			for(int k = 0; k < len; k++)
+			{
+				row.push_back((int) s.range(-3, 3));
+				flat_expect.push_back(row.back());
+			}
+		}
+		rag2 = rag;
+		bool moved = false;
+		// the same elements in the same order, split into rows differently: equal when flattened, not equal as nested lists
+		for(size_t i = 0; i + 1 < rag2.size() && !moved; i++)
+			if(!rag2[i].empty())
+			{
+				rag2[i + 1].insert(rag2[i + 1].begin(), rag2[i].back());
+				rag2[i].pop_back();
+				moved = true;
+			}
+		std::vector<int> fl1, fl2;
+		bool eq = true, eqself = false;
+		VMUST_RETURN("templates on ragged nested lists", fl1 = Flatten_List(rag); fl2 = Flatten_List(rag2); eq = Lists_Equal(rag, rag2); eqself = Lists_Equal(rag, rag));
+		c.cls("ragged_nested_lists");
+		VCHECK(fl1 == flat_expect && fl2 == flat_expect, "Flatten_List of ragged rows: " << fl1.size() << " and " << fl2.size() << " elements, expected " << flat_expect.size());
+		VCHECK(eqself, "Lists_Equal(l,l) is false for a ragged nested list");
+		VCHECK(eq == (rag == rag2), "Lists_Equal on nested lists with the same elements split into rows differently: " << eq);
+	}
 }
 
 namespace
